@@ -24,15 +24,16 @@ impl CommitterKey {
 //@struct file=poly-commit/src/ipa_pc/data_structures.rs name=Proof
 pub type VerifierKey = CommitterKey;
 //@use h2c
-//@spec h2c_spec scp_spec ipa_spec
+//@spec h2c_spec scp_spec ipa_spec ipa_rest_spec
 // WHAT IS DROPPED: everything from `let h_prime = ..` on (the log(d) folding rounds over split_at_mut slices and the proof assembly) is cut and replaced by
 // one abstract call; this unit decides the combination loop, the hiding step, the first round challenge and the transcript schedule of the prover.
 #[verifier::external_body] pub fn vec_zero_fr(len: usize) -> (r: Vec<Fr>) ensures r@.len() == len, forall|i: int| 0 <= i < len ==> (#[trigger] r@[i])@ == f_zero() { unimplemented!() }
-#[verifier::external_body] pub fn ipa_open_rest(ck: &CommitterKey, cp: &Poly, cr: Option<Fr>, cc: G1Affine, hiding_commitment: Option<G1Affine>, round_challenge: Fr, cv: Fr, point: &Fr) -> (r: Result<Proof, Error>) { unimplemented!() }
+// `ipa_open_rest` = the rest of `open` from `let h_prime = ..` on: its contract is PROVED in units/ipa_open_fold.rs (the same source text, second fragment)
 #[verifier::external_body] pub fn normalize_pair(a: G1, b: G1) -> (r: Vec<G1Affine>) ensures r@.len() == 2, r@[0]@ == a@, r@[1]@ == b@ { unimplemented!() }   // G::Group::normalize_batch(&[a, b])
 impl Poly {
-    #[verifier::external_body] pub fn sub_assign_poly(&mut self, q: &Poly) ensures forall|x: FS| #[trigger] final(self).ev(x) == f_sub(old(self).ev(x), q.ev(x)), final(self).wf() { unimplemented!() }      // p -= &q
-    #[verifier::external_body] pub fn from_coeffs1(a: Fr) -> (r: Poly) ensures forall|x: FS| #[trigger] r.ev(x) == a@ { unimplemented!() }                                    // from_coefficients_slice(&[a])
+    #[verifier::external_body] pub fn sub_assign_poly(&mut self, q: &Poly) ensures forall|x: FS| #[trigger] final(self).ev(x) == f_sub(old(self).ev(x), q.ev(x)), final(self).wf(),
+                final(self).coeffs@.len() <= (if old(self).coeffs@.len() >= q.coeffs@.len() { old(self).coeffs@.len() } else { q.coeffs@.len() }) { unimplemented!() }      // p -= &q
+    #[verifier::external_body] pub fn from_coeffs1(a: Fr) -> (r: Poly) ensures forall|x: FS| #[trigger] r.ev(x) == a@, r.coeffs@.len() <= 1 { unimplemented!() }                                    // from_coefficients_slice(&[a])
     #[verifier::external_body] pub fn add_assign_scaled(&mut self, q: (Fr, &Poly))
         ensures forall|x: FS| #[trigger] final(self).ev(x) == f_add(old(self).ev(x), f_mul(q.0@, q.1.ev(x))), final(self).wf(),
                 final(self).coeffs@.len() <= (if old(self).coeffs@.len() >= q.1.coeffs@.len() { old(self).coeffs@.len() } else { q.1.coeffs@.len() }) { unimplemented!() }
@@ -59,11 +60,13 @@ impl InnerProductArgPC {
 //@stub from=ipa.rs id=ipa.cm_commit
 //@stub from=ipa.rs id=ipa.compute_random_oracle_challenge
 //@stub from=ipa_shift.rs id=ipa.shift_polynomial
+//@stub from=ipa_open_fold.rs id=ipa.open.folding_rounds
 //@fn id=ipa.open.combination_phase file=poly-commit/src/ipa_pc/mod.rs scope="impl<G, D, P> PolynomialCommitment<G::ScalarField, P> for InnerProductArgPC<G, D, P>" name=open props=C11,C01,C04,C17,C07
     fn open<'a>(ck: &CommitterKey, labeled_polynomials: Vec<&'a LabeledPolynomial>, commitments: Vec<&'a LabeledCommitment<Commitment>>, point: &'a Fr, sponge: &mut Sponge,
                 states: Vec<&'a Randomness>, rng: Option<&mut Rng>) -> (res: Result<Proof, Error>)
     requires
         ck.comm_key@.len() >= 1, ck.comm_key@.len() < 0x4000_0000_0000_0000,
+        exists|k: nat| vstd::arithmetic::power2::pow2(k) == ck.comm_key@.len(),     // the key length is a power of two (setup / trim round up to one)
         forall|i: int| 0 <= i < labeled_polynomials@.len() ==> (#[trigger] labeled_polynomials@[i]).polynomial.wf() && labeled_polynomials@[i].polynomial.coeffs@.len() < 0x4000_0000_0000_0000,
     ensures
         // the prover squeezes exactly like the verifier (succinct_check): one challenge up front, two per polynomial
@@ -77,7 +80,7 @@ impl InnerProductArgPC {
 //@rw 2 /combined_polynomial \+= \((cur_challenge), ([^;]*)\);/ => combined_polynomial.add_assign_scaled((\1, \2));
 //@rw 1 /commitment\.shifted_comm\.unwrap\(\)\.mul\(cur_challenge\)/ => commitment.shifted_comm.unwrap_abort().mul(cur_challenge)
 //@rw 1 /shifted_rand\.unwrap\(\)\)/ => shifted_rand.unwrap_abort())
-//@rw 1 /(?s)let h_prime = ck\.h\.mul\(round_challenge\)\.into_affine\(\);.*\}\)\s*\}\s*$/ => ipa_open_rest(ck, &combined_polynomial, combined_rand, combined_commitment, hiding_commitment, round_challenge, combined_v, point) }
+//@rw 1 /(?s)let h_prime = ck\.h\.mul\(round_challenge\)\.into_affine\(\);.*\}\)\s*\}\s*$/ => Self::ipa_open_rest(ck, &combined_polynomial, combined_rand, hiding_commitment, round_challenge, point, d, log_d) }
 //@rw 1 /\bark_std::log2\(d \+ 1\) as usize/ => log2_ceil(d + 1) as usize
 //@rw 1 /let mut rng = rng\.expect\("[^"]*"\);/ => let rng = rng.unwrap_abort();
 //@rw 1 /P::rand\(d, &mut rng\)/ => Poly::rand(d, rng)
@@ -100,7 +103,7 @@ impl InnerProductArgPC {
                 combined_commitment_proj@ == ipa_acc_c(cs, s0, it.index@ as nat),
                 forall|x: FS| #[trigger] combined_polynomial.ev(x) == ipa_cp(ck, lps, s0, it.index@ as nat, x),
                 combined_rand@ == ipa_cr(lps, sts, s0, it.index@ as nat),
-                combined_polynomial.wf(), combined_polynomial.coeffs@.len() < 0x8000_0000_0000_0000,
+                combined_polynomial.wf(), combined_polynomial.coeffs@.len() <= ck.comm_key@.len(),
 //@after /let mut cur_challenge = sponge/
         proof { reveal_with_fuel(sp_iter, 3); }
 //@loopstart 1
